@@ -18,6 +18,19 @@ import os
 
 NAME = os.environ.get("VERIF_FW", "tx")
 
+# exceptions that escaped a framework callback driven by the harness (a timer, connection_lost): a real reactor / loop logs
+# them and goes on, so does the harness - but they are reported (common.driver_out attaches them; Result.finish turns them into
+# a violation) unless the driver handles them itself (TOLERATE_ESCAPES).
+ESCAPES = []
+TOLERATE_ESCAPES = False
+
+
+def _escaped(where, e):
+    if TOLERATE_ESCAPES:
+        raise e
+    import traceback
+    ESCAPES.append(dict(where=where, exc=type(e).__name__ + ": " + str(e)[:200], tb=traceback.format_exc()[-1500:]))
+
 import txaio  # noqa: E402
 
 if NAME == "tx":
@@ -31,8 +44,17 @@ if NAME == "tx":
     def now():
         return CLOCK.seconds()
 
+    def _clock_advance(dt, where):
+        for _ in range(100):
+            try:
+                CLOCK.advance(dt)
+                return
+            except Exception as e:  # noqa
+                _escaped(where, e)
+                dt = 0
+
     def settle():
-        CLOCK.advance(0)
+        _clock_advance(0, "timer")
 
     def timers():
         return sorted(c.getTime() for c in CLOCK.getDelayedCalls())
@@ -50,8 +72,8 @@ if NAME == "tx":
             if not due:
                 break
             t = min(due)
-            CLOCK.advance(max(0.0, t - CLOCK.seconds()))
-        CLOCK.advance(max(0.0, target - CLOCK.seconds()))
+            _clock_advance(max(0.0, t - CLOCK.seconds()), "timer")
+        _clock_advance(max(0.0, target - CLOCK.seconds()), "timer")
 
     class Transport:
         """Lenient recording ITransport / ITCPTransport stand-in."""
@@ -135,7 +157,10 @@ if NAME == "tx":
             r = failure.Failure(tx_error.ConnectionDone())
         else:
             r = failure.Failure(tx_error.ConnectionLost())
-        proto.connectionLost(r)
+        try:
+            proto.connectionLost(r)
+        except Exception as e:  # noqa
+            _escaped("connection_lost", e)
         settle()
 
 else:
@@ -325,7 +350,10 @@ else:
         return None
 
     def lose(proto, clean=True):
-        proto.connection_lost(None if clean else ConnectionResetError("peer reset"))
+        try:
+            proto.connection_lost(None if clean else ConnectionResetError("peer reset"))
+        except Exception as e:  # noqa
+            _escaped("connection_lost", e)
         settle()
 
 
